@@ -264,6 +264,30 @@ func (b *builder) defv(t *sp.Type, v any) any {
 			k = td.Base.K
 		}
 	}
+	if k == sp.KArray && t.Elem != nil {
+		if l, ok := v.([]any); ok {
+			switch t.Elem.K {
+			case sp.KInt, sp.KInt32, sp.KInt64, sp.KUInt, sp.KUInt32, sp.KUInt64:
+				out := make([]int, len(l))
+				for i, e := range l {
+					out[i], _ = ConvDefault(sp.KInt, e).(int)
+				}
+				return out
+			case sp.KFloat32, sp.KFloat64:
+				out := make([]float64, len(l))
+				for i, e := range l {
+					out[i], _ = ConvDefault(sp.KFloat64, e).(float64)
+				}
+				return out
+			case sp.KBool:
+				out := make([]bool, len(l))
+				for i, e := range l {
+					out[i], _ = e.(bool)
+				}
+				return out
+			}
+		}
+	}
 	return ConvDefault(k, v)
 }
 
